@@ -97,7 +97,7 @@ func PackValues(format string, values []rt.Value, budget uint64) (string, uint64
 			_ = p.align(0) &&
 				p.mustGetOptSize() &&
 				p.nextStringValue() &&
-				p.writeStr(p.optSize)
+				p.writeFixedStr(p.optSize)
 		case 'z':
 			if p.align(0) && p.nextStringValue() {
 				if strings.IndexByte(p.strVal, 0) >= 0 {
@@ -227,6 +227,16 @@ func (p *packer) consumeBudget(amount uint64) bool {
 		return false
 	}
 	return true
+}
+
+// writeFixedStr writes the current string for option "cn": exactly n bytes, the
+// string being padded with zeros.  It is an error if the string is longer.
+func (p *packer) writeFixedStr(n uint) bool {
+	if uint(len(p.strVal)) > n {
+		p.err = errStringLongerThanFormat
+		return false
+	}
+	return p.writeStr(n)
 }
 
 func (p *packer) writeStr(maxLen uint) bool {
